@@ -108,6 +108,13 @@ pub fn repair_once<R: Read>(par: &Par, input: R, unauth: bool, orig: &HashMap<St
         wcfg.set_layers(Layers::EMPTY);
         let out = SharedSink::new();
         let mut w = ArchiveWriter::from_config(out.clone(), wcfg).map_err(|e| format!("{e:?}"))?;
+        // every third repair writes into an output archive that ALREADY holds a file (an application adding a notice
+        // first): the ids handed out by the output writer then differ from the ids of the archive being repaired
+        static PRE: std::sync::atomic::AtomicUsize = std::sync::atomic::AtomicUsize::new(0);
+        let prepopulated = PRE.fetch_add(1, std::sync::atomic::Ordering::Relaxed) % 3 == 2;
+        if prepopulated {
+            w.add_file("REPAIR-NOTICE", 6, &b"notice"[..]).map_err(|e| format!("{e:?}"))?;
+        }
         let status = match fs.convert_to_archive(&mut w) {
             Ok(s) => s,
             Err(e) => return Ok(json!({"st": "Fatal", "detail": format!("{e:?}").chars().take(60).collect::<String>(),
@@ -126,6 +133,9 @@ pub fn repair_once<R: Read>(par: &Par, input: R, unauth: bool, orig: &HashMap<St
         names.sort();
         let mut files = vec![];
         for name in names {
+            if prepopulated && name == "REPAIR-NOTICE" {
+                continue;
+            }
             let label = archive::label_of(&name);
             let mut data = Vec::new();
             let readable = match rd.get_file(name.clone()) {
